@@ -273,7 +273,7 @@ def _worker(job):
         gc.freeze()
     res = dict(evaluations=0, nontrivial=0, failures=[], samples=[], skipped_prefix_already_broken=0, get_without_sql=0, get_with_token_without_sql=0, add_conflicts=0,
                operations_raising_documented_errors=0, histories_with_identity_tokens=0)
-    for idxs in H.job_sequences(job.get("n_ops", len(OPS)), job):
+    for idxs in H.job_sequences(job.get("catalogue", len(OPS)), job):
         names = [OPS[k] for k in idxs]
         r = run_history(names)
         res["evaluations"] += 1
@@ -308,7 +308,7 @@ def bounded(run, tier, seed):
         # one level deeper where it pays: histories of length 4 that start by vacating / altering row 1
         # (over the token-less catalogue; the identity-token operations take part in every history of length <= 3, and of length 4 in the thorough tier)
         first = [BASE_OPS.index(o) for o in QUICK_L4_FIRST]
-        joblist += [j for j in H.jobs(len(BASE_OPS), (4,), min_jobs=100, n_ops=len(BASE_OPS)) if j["prefix"][0] in first]
+        joblist += [j for j in H.jobs(len(BASE_OPS), (4,), min_jobs=100, catalogue=len(BASE_OPS)) if j["prefix"][0] in first]
         extra = f" plus ALL histories of length 4 over the {len(BASE_OPS)} token-less operations whose first operation is one of {QUICK_L4_FIRST}"
     if seed:
         import random
